@@ -1062,8 +1062,12 @@ class CFG:
         while b >= 0:
             iteration += 1
 
-            # Move on to the next block
-            if len(change[b]) == 0 or iteration > maxiter:
+            # Move on to the next block.  One iteration updates one nonterminal, so the
+            # budget of a block is `maxiter` updates per nonterminal of the block (a fixed
+            # number of updates per block starves large blocks long before they converge).
+            if len(change[b]) == 0 or iteration > maxiter * (
+                len(blocks[b]) if b < len(blocks) else 1
+            ):
                 b -= 1
                 iteration = 0  # reset iteration number for the next bucket
                 continue
